@@ -303,4 +303,136 @@ def wfX (cfg : ConfigX) (st : State) : Bool :=
   (-(2 ^ 31 : Int) ≤ cfg.challenge) && (cfg.challenge < 2 ^ 31) &&
   (dataPacketsX cfg st).all (fun d => d.length ≤ PACKET_SIZE)
 
+/-! ### value lists that continue in the next packet
+
+When a reply does not fit one packet, real servers cut a field section at the packet boundary: the
+packet simply ENDS inside the value list — after a value, with no closing empty value — and the next
+packet continues the same field by repeating `<field id> 00 <offset byte>` with the row of the first
+value it carries.  A `Slice` / `Extra` already is "the values `offset …` of one column under its field id
+and offset", so the continuation is a section like any other; what is new on the wire is the section
+WITHOUT its closing `00` at the end of a packet.  `ConfigC` = `ConfigX` plus, per packet, whether it ends
+inside the value list of its last section.  `CutSection` / `cutLayout` below give the same thing from
+the other side: whole sections, each with the list of its cut points. -/
+
+/-- a section whose packet ends after its last value: no closing empty value -/
+def encOpen (st : State) : Section → Bytes
+  | .slice sl => sl.markers ++ cstr (fieldId sl) ++ [UInt8.ofNat sl.offset] ++ ((sliceValues st sl).map cstr).flatten
+  | .extra e => e.markers ++ cstr e.name ++ [UInt8.ofNat e.offset] ++ (e.values.map cstr).flatten
+
+/-- the sections of a packet that ends inside the value list of its last section -/
+def encSectionsCut (st : State) : List Section → Bytes
+  | [] => []
+  | [s] => encOpen st s
+  | s :: r => encSection st s ++ encSectionsCut st r
+
+/-- how a reply whose packets may end inside a value list is put on the wire -/
+structure ConfigC where
+  challenge : Int
+  layout : List (List Section)
+  unknown : List Nat
+  /-- per packet: it ends inside the value list of its last section (absent = no) -/
+  cut : List Bool
+  deriving Repr
+
+/-- the same sections with every value list closed in its packet -/
+def ConfigC.closed (cfg : ConfigC) : ConfigX := ⟨cfg.challenge, cfg.layout, cfg.unknown⟩
+
+/-- a reply whose packets close all their sections, as a `ConfigC` -/
+def ConfigX.toC (cfg : ConfigX) : ConfigC := ⟨cfg.challenge, cfg.layout, cfg.unknown, []⟩
+
+def encPacketSections (st : State) (cut : Bool) (ss : List Section) : Bytes :=
+  if cut then encSectionsCut st ss else encSections st ss
+
+/-- the section bytes of packets `i, i+1, …` -/
+def sectionBytesFrom (st : State) (cut : List Bool) : Nat → List (List Section) → List Bytes
+  | _, [] => []
+  | i, ss :: r => encPacketSections st (cut.getD i false) ss :: sectionBytesFrom st cut (i + 1) r
+
+def payloadsC (cfg : ConfigC) (st : State) : List Bytes :=
+  match sectionBytesFrom st cfg.cut 0 cfg.layout with
+  | [] => [encVars st.vars]
+  | first :: rest => (encVars st.vars ++ first) :: rest
+
+def dataPacketsC (cfg : ConfigC) (st : State) : List Bytes :=
+  let ps := payloadsC cfg st
+  packetsFrom cfg.unknown ps.length 0 ps
+
+def scriptC (cfg : ConfigC) (st : State) : List Bytes := handshakeReply cfg.challenge :: dataPacketsC cfg st
+
+def requestsC (cfg : ConfigC) : List Bytes := [handshakeRequest, dataRequest cfg.challenge]
+
+/-- the domain: `wfX` with the packets as they are now (a packet that ends inside a value list is one
+byte shorter than with the list closed; it is not empty: it carries at least the field id and the
+offset of its last section) -/
+def wfC (cfg : ConfigC) (st : State) : Bool :=
+  wfVars st && st.players.all wfPlayer && st.teams.all wfTeam && st.players.length < 2 ^ 32 &&
+  (st.pids.all fun l => l.length == st.players.length && l.all okItem) &&
+  cfg.layout.flatten.all (wfSection st) && covered st (slicesOf cfg.layout.flatten) &&
+  !cfg.layout.isEmpty && (cfg.layout.drop 1).all (fun ss => !ss.isEmpty) && cfg.layout.length ≤ 128 &&
+  (-(2 ^ 31 : Int) ≤ cfg.challenge) && (cfg.challenge < 2 ^ 31) &&
+  (dataPacketsC cfg st).all (fun d => d.length ≤ PACKET_SIZE)
+
+/-! what real servers do on top of `wfC` (not needed by a reader, `C04_gs3_query_cut` does not ask for
+it): a packet ends inside a value list only after at least one value, and the next packet starts with
+the continuation — the same field id, the offset of the first value not yet sent -/
+
+def sectionId : Section → Bytes
+  | .slice sl => fieldId sl
+  | .extra e => e.name
+
+def sectionOffset : Section → Nat
+  | .slice sl => sl.offset
+  | .extra e => e.offset
+
+def sectionCount : Section → Nat
+  | .slice sl => sl.count
+  | .extra e => e.values.length
+
+def continuedFrom (cut : List Bool) : Nat → List (List Section) → Bool
+  | _, [] => true
+  | i, ss :: r =>
+    (!(cut.getD i false) ||
+      match ss.getLast?, r.head?.bind List.head? with
+      | some s, some s' => 0 < sectionCount s && sectionId s' == sectionId s && sectionOffset s' == sectionOffset s + sectionCount s
+      | _, _ => false) && continuedFrom cut (i + 1) r
+
+/-- every packet that ends inside a value list is continued by the next one -/
+def continued (cfg : ConfigC) : Bool := continuedFrom cfg.cut 0 cfg.layout
+
+/-! the same from the side of the whole sections: a section and its cut points -/
+
+/-- values `a … a+n-1` of a section under its field id, with the offset of the first of them -/
+def Section.part : Section → Nat → Nat → Section
+  | .slice sl, a, n => .slice { sl with offset := sl.offset + a, count := n }
+  | .extra e, a, n => .extra { e with offset := e.offset + a, values := (e.values.drop a).take n }
+
+/-- a section and the numbers of values after which a packet of the reply ends (increasing, each
+inside the section: `0 < c < count`) -/
+structure CutSection where
+  sec : Section
+  cuts : List Nat
+  deriving Repr
+
+/-- the pieces of a section from value `a` on: all but the last end their packet -/
+def cutPieces (s : Section) : Nat → List Nat → List Section
+  | a, [] => [s.part a (sectionCount s - a)]
+  | a, c :: r => s.part a (c - a) :: cutPieces s c r
+
+/-- the packets of a run of sections that are sent one after the other: a new packet after every cut
+point.  `cur` = the sections of the packet being filled. -/
+def cutRun (cur : List Section) : List CutSection → List (List Section × Bool)
+  | [] => [(cur, false)]
+  | cs :: r =>
+    match cutPieces cs.sec 0 cs.cuts with
+    | [] => cutRun cur r
+    | [p] => cutRun (cur ++ [p]) r
+    | p :: q :: more =>
+      (cur ++ [p], true) :: ((q :: more).dropLast.map fun x => ([x], true)) ++ cutRun [(q :: more).getLast (List.cons_ne_nil q more)] r
+
+/-- a reply given as runs of whole sections with cut points (a packet boundary between two runs falls
+between two sections, as in `ConfigX`) -/
+def cutLayout (challenge : Int) (runs : List (List CutSection)) (unknown : List Nat) : ConfigC :=
+  let packets := (runs.map (cutRun [])).flatten
+  ⟨challenge, packets.map (·.1), unknown, packets.map (·.2)⟩
+
 end Gd.Gs3.Spec
